@@ -201,6 +201,15 @@ where
                         .inspect_err(|error| debug!(parent: &span, ?error, "Failed to send LogSyncMessage::PreSync"))
                         .map_err(|err| LogSyncError::MessageSink(format!("{err:?}")))?;
 
+                    // Nothing may follow our `Done`: if the ranges turned out to be empty (for example
+                    // because the logs were pruned after the heights were announced) forget them,
+                    // otherwise the sync loop would walk them and send a second `Done`.
+                    let remote_needs = if sync_done_sent {
+                        LogRanges::default()
+                    } else {
+                        remote_needs
+                    };
+
                     self.state = State::ReceivePreSyncOrDone {
                         remote_needs,
                         outbound_operations,
